@@ -32,6 +32,7 @@ Flat == {Bin(op, l, r) : op \in Ops, l \in Leaves, r \in Leaves}
         \cup {Ix(e, key) : e \in Leaves, key \in Leaves} \cup {Ix(V("o"), S(<<"a">>)), Ix(V("o"), S(<<"c">>)), Ix(V("t"), Un("-", N(1))), Ix(V("t"), Bin("/", N(1), N(2)))}
         \cup {At(e, n) : e \in Leaves, n \in {"a", "c"}} \cup {Sp(e, n) : e \in Leaves, n \in {"a", "c"}}
         \cup {[k |-> "call", fn |-> f, args |-> as] : f \in {"inc", "cat", "nofn"}, as \in {<<>>, <<N(1)>>, <<S(<<"a">>), N(2)>>, <<V("n")>>, <<V("ns")>>, <<N(1), N(2), N(3)>>, <<V("u")>>}}
+NullSibs == {N(7), S(<<"a">>), Bo(TRUE)}
 (* precedence and associativity: two operators, three operands, both shapes; with numbers and with flags *)
 Triples == {<<N(7), N(2), N(3)>>, <<Bo(TRUE), Bo(FALSE), Bo(TRUE)>>, <<N(1), N(1), Bo(FALSE)>>, <<N(2), Bo(TRUE), N(2)>>}
 Prec == {Bin(o1, Bin(o2, t[1], t[2]), t[3]) : o1 \in Ops, o2 \in Ops, t \in Triples}
@@ -43,6 +44,8 @@ Prec == {Bin(o1, Bin(o2, t[1], t[2]), t[3]) : o1 \in Ops, o2 \in Ops, t \in Trip
         \cup {Cond(Cond(Bo(b1), Bo(b2), Bo(FALSE)), N(1), N(2)) : b1 \in BOOLEAN, b2 \in BOOLEAN}
         \cup {Cond(Bo(b1), Cond(Bo(b2), N(1), N(2)), N(3)) : b1 \in BOOLEAN, b2 \in BOOLEAN}
         \cup {Bin(o, Cond(Bo(TRUE), N(1), N(2)), N(3)) : o \in Ops}
+        \cup {Cond(Bo(c), Cond(Bo(d), Nul, x), y) : c \in BOOLEAN, d \in BOOLEAN, x \in NullSibs, y \in NullSibs}      \* a null typed by its sibling meets another type
+        \cup {Cond(Bo(c), y, Cond(Bo(d), x, Nul)) : c \in BOOLEAN, d \in BOOLEAN, x \in NullSibs, y \in NullSibs}
         \cup {Ix(Bin("+", V("t"), N(1)), N(0)), At(Bin("||", V("o"), Bo(TRUE)), "a"), Un("-", Ix(V("t"), N(0))), Un("-", At(V("o"), "a")), Bin("*", Ix(V("t"), N(1)), At(V("o"), "a"))}
 (* collections and for expressions *)
 Tu(items) == [k |-> "tuple", items |-> items]
